@@ -420,6 +420,13 @@ func TestC13(t *testing.T) {
 					op = model.Op{Kind: "Delete", Table: s.Table, Key: k}
 				default:
 					op = model.Op{Kind: "Update", Table: s.Table, Key: k, Update: "SET extra = :x", Values: map[string]model.AV{":x": model.Str("y")}}
+					// the malformed key is reported whatever the condition would say
+					switch rapid.IntRange(0, 3).Draw(rt, "malformedCond") {
+					case 1:
+						op.Cond = "attribute_exists(nosuchattr)"
+					case 2:
+						op.Cond = "attribute_not_exists(nosuchattr)"
+					}
 				}
 				res, status, f := w.do(op)
 				fail(f)
@@ -485,7 +492,7 @@ func (g *tgen) batchOp(rt *rapid.T, max int) model.Op {
 	return model.Op{Kind: "BatchWrite", Batch: []model.TableBatch{tb}}
 }
 
-const ruleC15 = "rapid state machine: SetFailure(none | internal_server | deprecated, through EmulateFailure and through ActiveForceFailure / DeactiveForceFailure) interleaved with every data operation kind (Put, Update, Delete, Get, Query, Scan, BatchWrite with 1-16 requests over one to three tables or 13-25 requests for one table, BatchGet, TransactWrite) and with requests that are invalid on their own account (malformed keys, unknown table, bad placeholders, malformed expressions, ill-typed updates, index-key type mismatches) on tables with 0-2 indexes, the same abstract history on both SDK clients against the reference model: while a condition is active every data call returns exactly the configured error class and the complete internal snapshot is unchanged; BatchWrite under internal_server reports every request as unprocessed (none applied, none dropped) identically in both clients; after deactivation the full observable state equals the model that skipped the failed calls and later operations agree with it. Non-trivial = history with >= 2 toggles and a write attempted under failure followed by a read after recovery; distinct = hash of the operation list."
+const ruleC15 = "rapid state machine: SetFailure(none | internal_server | deprecated, through EmulateFailure and through ActiveForceFailure / DeactiveForceFailure) interleaved with every data operation kind (Put, Update, Delete, Get, Query, Scan, BatchWrite with 1-16 requests over one to three tables or 13-25 requests for one table, BatchGet, TransactWrite) and with requests that are invalid on their own account (malformed keys, unknown table, bad placeholders, malformed expressions, ill-typed updates, index-key type mismatches) on tables with 0-2 indexes, the same abstract history on both SDK clients against the reference model: while a condition is active every data call returns exactly the configured error class and the complete internal snapshot is unchanged; BatchWrite under internal_server reports every request as unprocessed (none applied, none dropped) identically in both clients; after deactivation the full observable state - and the item-collection metrics configured through SetItemCollectionMetrics, which every BatchWrite response carries - equals the model that skipped the failed calls and later operations agree with it. Non-trivial = history with >= 2 toggles and a write attempted under failure followed by a read after recovery; distinct = hash of the operation list."
 
 // TestC15 decides property C15.
 func TestC15(t *testing.T) {
@@ -605,6 +612,15 @@ func TestC15(t *testing.T) {
 				data(model.Op{Kind: "BatchGet", Batch: []model.TableBatch{tb}}, false)
 			},
 			"transact": func(rt *rapid.T) { data(model.Op{Kind: "TransactWrite"}, true) },
+			"setMetrics": func(rt *rapid.T) {
+				// the SetItemCollectionMetrics helper: every later BatchWriteItem response
+				// carries the configured metrics, whatever failed in between
+				if w.m.MetricsSet || rapid.IntRange(0, 3).Draw(rt, "reallySetMetrics") != 2 {
+					return
+				}
+				_, _, f := w.do(model.Op{Kind: "SetMetrics"})
+				fail(f)
+			},
 			"invalidRequest": func(rt *rapid.T) {
 				// requests that are rejected on their own account: while a failure
 				// is active they too return the configured error
